@@ -10,6 +10,17 @@ import (
 	"verif/harness/internal/evi"
 )
 
+func fmtSubTxs(ss []SubTx) string {
+	out := "["
+	for i, st := range ss {
+		if i > 0 {
+			out += " "
+		}
+		out += "(" + fmtOpt(st.Start) + "," + fmtOpt(st.TTL) + ")"
+	}
+	return out + "]"
+}
+
 func fmtOpt(v *uint64) string {
 	if v == nil {
 		return "absent"
@@ -19,17 +30,36 @@ func fmtOpt(v *uint64) string {
 
 // c26Key names the violated bound: the failing input class of a case where the
 // full rule list accepted although the reference interval excludes the slot.
-func c26Key(era Era, slot uint64, start, ttl *uint64) string {
+func c26Key(era Era, slot uint64, start, ttl *uint64, hasSubTx bool) string {
+	sfx := ""
+	if hasSubTx {
+		// the transaction carries sub-transactions (Dijkstra body key 23)
+		sfx = ":subtx"
+	}
 	if era != Shelley && start != nil && slot < *start {
-		return fmt.Sprintf("C26:%s:accepted-before-validity-start", era)
+		return fmt.Sprintf("C26:%s:accepted-before-validity-start%s", era, sfx)
 	}
 	if ttl != nil && *ttl == 0 {
+		// a top-level ttl of exactly 0: the known absent/zero conflation, with or without sub-transactions
 		return fmt.Sprintf("C26:%s:ttl-0-treated-as-absent", era)
 	}
 	if era == Shelley {
 		return "C26:shelley:accepted-after-ttl"
 	}
-	return fmt.Sprintf("C26:%s:invalid-hereafter-not-enforced", era)
+	return fmt.Sprintf("C26:%s:invalid-hereafter-not-enforced%s", era, sfx)
+}
+
+// subTxNarrows reports whether some sub-transaction's own interval excludes
+// the slot. The statement only speaks about the top-level interval; whether a
+// narrower sub-transaction interval must reject the batch is left unspecified
+// here (a rejection in that situation is counted separately, never flagged).
+func subTxNarrows(tx *TxSpec, slot uint64) bool {
+	for _, st := range tx.SubTxs {
+		if !refIntervalOK(Dijkstra, slot, st.Start, st.TTL) {
+			return true
+		}
+	}
+	return false
 }
 
 type c26Result struct {
@@ -70,9 +100,19 @@ func c26Judge(rec *evi.Recorder, c *Case, res c26Result, raw []byte, report func
 		rec.Class(fmt.Sprintf("%s:decode_rejected", era))
 		return
 	}
+	if len(tx.SubTxs) > 0 {
+		rec.Class(fmt.Sprintf("dijkstra:sub_transactions=%d", len(tx.SubTxs)))
+		unb := false
+		for _, st := range tx.SubTxs {
+			unb = unb || st.TTL == nil
+		}
+		if unb && tx.TTL != nil && *tx.TTL != 0 && c.Slot >= *tx.TTL {
+			rec.Class("dijkstra:slot_past_top_ttl_with_unbounded_subtx")
+		}
+	}
 	if tx.TTL != nil || tx.Start != nil {
-		rec.NonTrivial(fmt.Sprintf("%s slot=%d start=%s ttl=%s", era, c.Slot, fmtOpt(tx.Start), fmtOpt(tx.TTL)),
-			map[string]any{"era": era.String(), "slot": c.Slot, "start": fmtOpt(tx.Start), "ttl": fmtOpt(tx.TTL),
+		rec.NonTrivial(fmt.Sprintf("%s slot=%d start=%s ttl=%s sub=%s", era, c.Slot, fmtOpt(tx.Start), fmtOpt(tx.TTL), fmtSubTxs(tx.SubTxs)),
+			map[string]any{"era": era.String(), "slot": c.Slot, "start": fmtOpt(tx.Start), "ttl": fmtOpt(tx.TTL), "sub_transactions": fmtSubTxs(tx.SubTxs),
 				"ref_accepts": want, "lib_accepts": res.fullAccept, "tx": evi.Hex(raw)})
 	}
 	switch {
@@ -80,6 +120,8 @@ func c26Judge(rec *evi.Recorder, c *Case, res c26Result, raw []byte, report func
 		rec.Class(fmt.Sprintf("%s:both_accept", era))
 	case !res.fullAccept && !want:
 		rec.Class(fmt.Sprintf("%s:both_reject", era))
+	case !res.fullAccept && want && subTxNarrows(tx, c.Slot):
+		rec.Class("dijkstra:subtx_interval_excludes_slot:rejected(unspecified)")
 	case !res.fullAccept && want:
 		// statement is "accepts only if": over-rejection is counted, not flagged
 		rec.Class(fmt.Sprintf("%s:over_rejection", era))
@@ -88,7 +130,10 @@ func c26Judge(rec *evi.Recorder, c *Case, res c26Result, raw []byte, report func
 		rec.Class(fmt.Sprintf("%s:lib_accepts_outside_interval", era))
 		what := fmt.Sprintf("%s: full rule list (VerifyTransaction) accepts at slot %d a transaction with validity start %s and ttl/invalid-hereafter %s; reference interval excludes the slot (single interval rule accepts: %v)",
 			era, c.Slot, fmtOpt(tx.Start), fmtOpt(tx.TTL), res.ruleAccept)
-		report(c26Key(era, c.Slot, tx.Start, tx.TTL), what,
+		if len(tx.SubTxs) > 0 {
+			what += "; sub-transactions (start, ttl): " + fmtSubTxs(tx.SubTxs)
+		}
+		report(c26Key(era, c.Slot, tx.Start, tx.TTL, len(tx.SubTxs) > 0), what,
 			map[string]any{"era": era.String(), "slot": c.Slot, "start": fmtOpt(tx.Start), "ttl": fmtOpt(tx.TTL),
 				"tx_cbor": evi.Hex(raw), "net": tx.Net, "params": c.P})
 	}
@@ -174,7 +219,7 @@ func genSlot(rt *rapid.T) uint64 {
 
 func TestC26(t *testing.T) {
 	rec := evi.New(t, "C26", evi.Exploration,
-		"(a) exhaustive grid per era: slot in {0,1,5000,2^32+7,2^63-1,2^63,2^64-1} x validity start x ttl/invalid-hereafter in {absent,0,s-1,s,s+1,2^63,2^64-1} on a harness-built, signed, balanced transaction; (b) rapid: fully generated transactions (inputs, assets, certificates, withdrawals, mint, proposals, encodings, parameters) with boundary-biased slot/start/ttl. Each is decoded by the era decoder and run through VerifyTransaction with the era's complete rule list; oracle: accepted => reference interval contains the slot (Shelley slot<=ttl; Allegra+ start<=slot<hereafter, absent bounds unconstrained). Non-trivial = at least one bound present; distinct by (era, slot, start, ttl).")
+		"(a) exhaustive grid per era: slot in {0,1,5000,2^32+7,2^63-1,2^63,2^64-1} x validity start x ttl/invalid-hereafter in {absent,0,s-1,s,s+1,2^63,2^64-1} on a harness-built, signed, balanced transaction; (a2) Dijkstra sweep with 0-3 sub-transactions (body key 23), each with/without its own ttl and start below/equal/above the top-level bounds; (b) rapid: fully generated transactions (Dijkstra: optionally 1-3 sub-transactions) (inputs, assets, certificates, withdrawals, mint, proposals, encodings, parameters) with boundary-biased slot/start/ttl. Each is decoded by the era decoder and run through VerifyTransaction with the era's complete rule list; oracle: accepted => reference interval contains the slot (Shelley slot<=ttl; Allegra+ start<=slot<hereafter, absent bounds unconstrained). Non-trivial = at least one bound present; distinct by (era, slot, start, ttl).")
 	defer rec.Finish()
 	rec.Assume(
 		"ed25519 and blake2b from the Go standard/x libraries are trusted (used to sign the generated transactions)",
@@ -208,6 +253,42 @@ func TestC26(t *testing.T) {
 	}
 	rec.SetExtra("grid_points", gridPoints)
 
+	// (a2) Dijkstra sub-transactions (body key 23): 0-3 sub-transactions with /
+	// without their own ttl and start, below / equal / above the top-level bounds
+	subPoints := 0
+	for _, s := range []uint64{5000, 1<<32 + 7} {
+		subCfgs := [][]SubTx{
+			{{}},
+			{{Start: u64p(s - 100)}},
+			{{TTL: u64p(s + 1000)}},
+			{{TTL: u64p(s)}},
+			{{TTL: u64p(s - 1)}},
+			{{TTL: u64p(s + 1)}, {}},
+			{{}, {TTL: u64p(s + 1)}},
+			{{TTL: u64p(s + 1000), Start: u64p(s)}, {Start: u64p(s + 1)}},
+			{{TTL: u64p(0)}},
+			{{}, {}, {TTL: u64p(1 << 63)}},
+			{{Start: u64p(s - 1), TTL: u64p(s + 2)}, {TTL: u64p(s + 3)}, {}},
+		}
+		for _, subs := range subCfgs {
+			for _, start := range []*uint64{nil, u64p(s - 1), u64p(s), u64p(s + 1)} {
+				for _, ttl := range []*uint64{nil, u64p(0), u64p(s - 1), u64p(s), u64p(s + 1), u64p(1 << 63)} {
+					c := c26GridCase(Dijkstra, s, start, ttl)
+					c.Tx.SubTxs = subs
+					c.Tx.SetTag = subPoints%2 == 0
+					c.Tx.ThreeElems = subPoints%3 == 0
+					res, raw, err := c26Run(c)
+					if err != nil {
+						t.Fatalf("harness: %v", err)
+					}
+					subPoints++
+					c26Judge(rec, c, res, raw, func(key, what string, cs any) { rec.Violation(key, what, cs) })
+				}
+			}
+		}
+	}
+	rec.SetExtra("dijkstra_subtx_sweep_points", subPoints)
+
 	// (b) generated transactions with boundary-biased intervals
 	rec.Check(func(rt *rapid.T) {
 		era := allEras[rapid.IntRange(0, len(allEras)-1).Draw(rt, "era")]
@@ -220,6 +301,24 @@ func TestC26(t *testing.T) {
 				}
 			} else {
 				c.Tx.Start = genBound(rt, c.Slot, "start")
+			}
+			if era == Dijkstra && rapid.Bool().Draw(rt, "withSubTxs") {
+				n := rapid.IntRange(1, 3).Draw(rt, "nSubTxs")
+				for i := 0; i < n; i++ {
+					var st SubTx
+					// bounds relative to the slot and to the top-level bounds
+					if rapid.Bool().Draw(rt, "subHasTTL") {
+						base := c.Slot
+						if c.Tx.TTL != nil && rapid.Bool().Draw(rt, "subTTLNearTop") {
+							base = *c.Tx.TTL
+						}
+						st.TTL = genBound(rt, base, "subTTL")
+					}
+					if rapid.IntRange(0, 2).Draw(rt, "subHasStart") == 0 {
+						st.Start = genBound(rt, c.Slot, "subStart")
+					}
+					c.Tx.SubTxs = append(c.Tx.SubTxs, st)
+				}
 			}
 		}})
 		res, raw, err := c26Run(c)
